@@ -35,8 +35,11 @@ const (
 )
 
 type c08Lock struct {
-	l       Spinlock
-	_       [60]byte
+	l Spinlock
+	// the word right behind the lock word: the lock must work whatever its neighbours hold
+	// (a counter, another lock that is held, ...); half of the locks get a non-zero neighbour
+	after uint32
+	_     [56]byte
 	holders int32
 	_       [60]byte
 	// everything below is protected by l and accessed with PLAIN loads/stores
@@ -134,7 +137,12 @@ func TestVerifC08(t *testing.T) {
 
 		h := &c08Hist{}
 		for i := 0; i < nl; i++ {
-			h.locks = append(h.locks, &c08Lock{rec: c08RecFor(0), lastHolder: -1, order: vlib.NewFP(), handoffs: map[[2]int]struct{}{}})
+			lk := &c08Lock{rec: c08RecFor(0), lastHolder: -1, order: vlib.NewFP(), handoffs: map[[2]int]struct{}{}}
+			if r.Bool() {
+				lk.after = 0xdeadbeef
+				run.Count("locks_with_nonzero_neighbour_word", 1)
+			}
+			h.locks = append(h.locks, lk)
 		}
 		type plan struct {
 			lock  []int
@@ -238,6 +246,9 @@ func TestVerifC08(t *testing.T) {
 			if lk.l.state != 0 {
 				c.Violationf("lock-not-free-at-quiescence", "lock %d word is %d after every holder released", li, lk.l.state)
 			}
+			if lk.after != 0 && lk.after != 0xdeadbeef {
+				c.Violationf("neighbour-word-modified", "the word behind lock %d changed to %#x", li, lk.after)
+			}
 			sumOps += int64(lk.counter)
 			if atomic.LoadInt32(&lk.holders) != 0 {
 				c.Violationf("two-holders", "holder count of lock %d is %d at quiescence", li, lk.holders)
@@ -315,7 +326,11 @@ func c08Stress(run *vlib.Run) {
 			c.Begin(map[string]interface{}{"stress_round": k, "goroutines": ng, "locks": nl, "acquisitions_per_goroutine": per, "try_every": tryEvery})
 			h := &c08Hist{}
 			for i := 0; i < nl; i++ {
-				h.locks = append(h.locks, &c08Lock{rec: c08RecFor(0), lastHolder: -1, order: vlib.NewFP(), handoffs: map[[2]int]struct{}{}})
+				lk := &c08Lock{rec: c08RecFor(0), lastHolder: -1, order: vlib.NewFP(), handoffs: map[[2]int]struct{}{}}
+				if r.Bool() {
+					lk.after = 0xffffffff
+				}
+				h.locks = append(h.locks, lk)
 			}
 			var wg gosync.WaitGroup
 			var start gosync.WaitGroup
@@ -413,6 +428,24 @@ func c08Sequential(run *vlib.Run) {
 				return
 			}
 			l.Release()
+			// two locks side by side: while the second is held, a contended acquire of the
+			// first must still get through once the first is released
+			var pair [2]Spinlock
+			pair[1].Acquire()
+			pair[0].Acquire()
+			got := make(chan struct{})
+			go func() { pair[0].Acquire(); close(got) }()
+			for k := 0; k < 200; k++ {
+				runtime.Gosched()
+			}
+			pair[0].Release()
+			select {
+			case <-got:
+			case <-time.After(c08Budget(run)):
+				run.Watchdog("Acquire of a released lock did not return while the adjacent lock was held")
+			}
+			pair[0].Release()
+			pair[1].Release()
 			run.Count("sequential_fact_rounds", 1)
 		}
 	})
